@@ -90,4 +90,14 @@ def r7aDoc : SchemaDoc :=
     [ defn .interface "I" 1 [fld "f" (ty "Int") [arg "a" (ty "String" true)]],
       defn .object "T" 2 [fld "f" (ty "Int") [arg "a" (ty "String")]] (interfaces := ["I"]) ])
 
+/-- `interface I { f(a: String!): Int }  type T implements I { f(a: String!): Int }  union U = T`
+    plus `interface J { g: U }  type V implements J { g: T }` (covariant through the union) -/
+def implOkDoc : SchemaDoc :=
+  doc (miniPrelude ++
+    [ defn .interface "I" 1 [fld "f" (ty "Int") [arg "a" (ty "String" true)]],
+      defn .object "T" 2 [fld "f" (ty "Int") [arg "a" (ty "String" true)]] (interfaces := ["I"]),
+      defn .union "U" 3 (types := ["T"]),
+      defn .interface "J" 4 [fld "g" (ty "U")],
+      defn .object "V" 5 [fld "g" (ty "T")] (interfaces := ["J"]) ])
+
 end Gql.Examples
